@@ -6,6 +6,7 @@
 //!   fusim shrink <file> <out>              (internal) minimise a failing scenario
 //!   fusim selftest determinism <ID> <n>    run n seeds twice in different processes
 
+mod crosscheck;
 mod ctx;
 mod driver;
 mod fgen;
@@ -93,6 +94,13 @@ fn main() {
             }
             let id = driver::replay_file_property(&args[2]);
             dispatch!(id.as_str(), shrink_main(&args[2], &args[3]))
+        }
+        "crosscheck" => {
+            if args.len() < 4 {
+                usage();
+            }
+            let n: u64 = args[3].parse().unwrap_or(200);
+            dispatch!(args[2].as_str(), crosscheck_main(n))
         }
         "selftest" => {
             if args.len() < 5 || args[2] != "determinism" {
